@@ -753,6 +753,10 @@ func Run(c *core.Ctx) {
 		nd = c.Pick(400, 4000)
 	}
 	for i := 0; i < nd; i++ {
+		if c.Violations() >= 60 && !c.Replay() {
+			c.Inconclusive("remaining cases of the stream skipped after 60 violations in this process", "dep", i, nil)
+			break
+		}
 		if !c.Take("dep", i) {
 			continue
 		}
@@ -763,6 +767,10 @@ func Run(c *core.Ctx) {
 		n = c.Pick(1500, 20000)
 	}
 	for i := 0; i < n; i++ {
+		if c.Violations() >= 60 && !c.Replay() {
+			c.Inconclusive("remaining cases of the stream skipped after 60 violations in this process", "noise", i, nil)
+			break
+		}
 		if !c.Take("noise", i) {
 			continue
 		}
